@@ -10,9 +10,10 @@ CLAUSES = {
     "all-closed": "every output file is closed at the end",
     "record-values": "each record holds the state of that step (same closed form whether split or not)",
     "particle-vars": "particle variables are present in every file for all particles released so far",
+    "counter-induction": "one Output.update() from ANY counter state satisfying the schedule invariant (records so far = ceil(step/period), position in file = records mod numrec, ...) raises nothing and re-establishes the invariant at the next step; with the base case from the constructor this covers every (Nsteps, step) without bound",
 }
 BOUNDS = {
-    "quick": "Nsteps 1..6, period 1..3 steps, numrec 0..3 (all 72 triples via solver-enumerated forks), sparse+dense, with/without particle variable, forward+reversed; positions/velocity symbolic",
+    "quick": "induction: period 1..3 x numrec 0..3 with Nsteps and step unbounded (<= 1e9); bounded runs: Nsteps 1..6, period 1..3 steps, numrec 0..3 (all 72 triples via solver-enumerated forks), sparse+dense, with/without particle variable, forward+reversed; positions/velocity symbolic",
     "thorough": "Nsteps 1..12, period 1..5, numrec 0..5 (360 triples), both layouts, both directions",
 }
 ASSUMES = ["output period is a whole number of time steps; duration a whole number of steps", "one particle released at start (values symbolic), constant symbolic velocity, no deaths"]
@@ -30,7 +31,126 @@ def scenarios(tier):
                     continue
                 out.append(dict(name=f"{layout}-{'rev' if rev else 'fwd'}-{'pv' if pv else 'nopv'}", fn="run",
                                 params=dict(layout=layout, rev=rev, pv=pv, nmax=6 if q else 12, pmax=3 if q else 5, rmax=3 if q else 5), cost=10))
+    for P in ((1, 2, 3) if q else (1, 2, 3, 4, 5, 7)):
+        for R in ((0, 1, 2, 3) if q else (0, 1, 2, 3, 4, 5)):
+            out.append(dict(name=f"induction-P{P}-R{R}", fn="induction", params=dict(P=P, R=R), cost=1))
     return out
+
+
+class _SinkVar:
+    def __setitem__(self, key, val):
+        pass
+
+    def __setattr__(self, k, v):
+        pass
+
+
+class _Sink:
+    """stands for 'the currently open output file' in the inductive step: accepts every write"""
+
+    def __init__(self):
+        self.closed = 0
+        self.variables = _Vars()
+
+    def sync(self):
+        if self.closed:
+            raise RuntimeError("NetCDF: Not a valid ID")
+
+    def close(self):
+        if self.closed:
+            raise RuntimeError("NetCDF: Not a valid ID")
+        self.closed += 1
+
+    def isopen(self):
+        return not self.closed
+
+    def __setattr__(self, k, v):
+        object.__setattr__(self, k, v)
+
+
+class _Vars(dict):
+    def __missing__(self, k):
+        if k == "__w__":
+            raise KeyError(k)
+        v = _SinkVar()
+        return v
+
+
+def _ceil_div(W, a, b):
+    return -((-a) // b)
+
+
+def induction(W, p):
+    """unbounded in Nsteps and step: arbitrary counters satisfying the invariant, one real Output.update()"""
+    P, R = p["P"], p["R"]
+    out = W.load("ladim.out_netcdf")
+    tk, st = W.load("ladim.timekeeper"), W.load("ladim.state")
+    tmp = W.scratch()
+    timer = tk.TimeKeeper(start=W.dt(T0), stop=W.dt(T0 + 4 * P * DT), dt=DT)
+    S = st.State(particle_variables=dict(w0=float))
+    S.append(X=1, Y=1, Z=1, w0=3)
+    ivars = dict(pid=ovar("i4"), X=ovar("f8"))
+    O = out.Output(dict(time=timer, grid=None, state=S), str(tmp / "out.nc"), P * DT, ivars, particle_variables=dict(w0=ovar("f8")), numrec=R)
+    first = O.nc
+    # ---- arbitrary state
+    N = W.int("Nsteps", 1, 10 ** 9)
+    s = W.int("step", 0, 10 ** 9)
+    W.assume(W.lt(s, N), "0 <= step < Nsteps")
+    Reff = R if R else 999999
+    nr = _ceil_div(W, N, P)
+    if not R:
+        W.assume(W.lt(nr, 999999), "single-file output: fewer than 999999 records (the sentinel used for 'no split')")
+    rc = _ceil_div(W, s, P)  # records written before this step
+    lrc = rc % Reff
+    lnr_expr = lambda rc_, lrc_: W_min(W, Reff, nr - (rc_ - lrc_))  # noqa: E731
+    O.num_records = nr
+    O.record_count = rc
+    O.local_record_count = lrc
+    O.local_num_records = lnr_expr(rc, lrc)
+    O.local_instance_count = 0
+    O.instance_count = 0
+    sink = _Sink()
+    O.nc = sink
+    first.close()
+
+    class T:
+        pass
+
+    tstub = T()
+    tstub.step = s
+    tstub.time = timer.time
+    O.modules = dict(O.modules, time=tstub)
+    O.update()
+    due = W.truth(W.eq(s % P, 0))
+    rc2 = rc + 1 if due else rc
+    lrc2 = rc2 % Reff
+    finished_all = W.eq(rc2, nr)
+    conds = [W.eq(O.record_count, rc2), W.eq(O.num_records, nr)]
+    # invariant at the next step: ceil((s+1)/P) records
+    conds.append(W.eq(rc2, _ceil_div(W, s + 1, P)))
+    if W.truth(finished_all):
+        # last record written: the file is closed and no new one is opened
+        conds.append(sink.closed == 1 if due else True)
+        conds.append(O.nc is sink)
+    else:
+        conds.append(W.eq(O.local_record_count, lrc2))
+        conds.append(W.eq(O.local_num_records, lnr_expr(rc2, lrc2)))
+        conds.append(W.all([W.le(0, O.local_record_count), W.lt(O.local_record_count, O.local_num_records)]))
+        rolled = O.nc is not sink
+        conds.append(rolled == (due and W.truth(W.eq(lrc2, 0))))
+        if rolled:
+            conds.append(sink.closed == 1)
+            O.nc.close()
+        else:
+            conds.append(sink.closed == 0)
+    W.prove(W.all(conds), "counter-induction", dict(P=P, R=R, due=due))
+    return (P, R, due, W.truth(finished_all))
+
+
+def W_min(W, a, b):
+    if W.symbolic:
+        return W.core.s_min2(a, b)
+    return min(a, b)
 
 
 def run(W, p):
